@@ -379,6 +379,29 @@ def analyse(src: Source) -> List[Report]:
     rep.expect_min("R14.2-divmod", 2)
     rep.expect_min("R14.2-sub", 1)
     rep.expect_min("R14.2-field", 2)
+    # an absolute time is never accumulated in a float and converted afterwards: Time.from_float(x) with x an attribute that the
+    # same class advances by `+=` rounds at the size of the time reached at every step (the purpose of Time is lost)
+    from ..pyfront import self_attr as _sa
+    n_ff = 0
+    for rel in src.walk("jellyfysh", "*.py"):
+        if "/unittests" in rel or rel.startswith("unittests"):
+            continue
+        try:
+            mod_tree = src.parse(rel)
+        except SyntaxError:
+            continue
+        for c_ in [x for x in ast.walk(mod_tree) if isinstance(x, ast.ClassDef)]:
+            calls_ = [x for x in ast.walk(c_) if isinstance(x, ast.Call) and norm(x.func).endswith("Time.from_float") and x.args]
+            if not calls_:
+                continue
+            accumulated = {_sa(a.target) for a in ast.walk(c_) if isinstance(a, ast.AugAssign) and isinstance(a.op, ast.Add) and _sa(a.target)}
+            for call_ in calls_:
+                n_ff += 1
+                hit = sorted({_sa(x) for x in ast.walk(call_.args[0]) if isinstance(x, ast.Attribute) and _sa(x) in accumulated})
+                rep.ob("R14.5-no-float-accumulated-time", not hit, Loc(rel, call_.lineno, c_.name), call_,
+                       f"`{norm(call_)}` converts the attribute(s) {hit}, which the class advances by `+=` as plain floats: the absolute "
+                       f"time is rounded at its own size at every step, so the resolution Time exists to keep is lost in long runs")
+    rep.unit("from_float_sites_in_classes", n_ff)
     # writers of the two fields
     for n in ast.walk(cls):
         if isinstance(n, ast.FunctionDef):
